@@ -249,6 +249,7 @@ class Executor:
                             self._get_progress_string(),
                         )
                     )
+                handle = None
                 try:
                     slot = (
                         self._available_slots[-1]
@@ -262,6 +263,11 @@ class Executor:
                         self._available_slots.pop()
                 except ConductorAbort:
                     next_op.set_state(OperationState.ABORTED)
+                    if handle is not None:
+                        # The operation was started but may not have been
+                        # registered as in-flight yet. Register it so that its
+                        # process is terminated with the others.
+                        self._inflight_ops.add_op(handle, next_op)
                     # N.B. A slot may be leaked here, but it does not matter
                     # because we are aborting the execution.
                     raise
